@@ -209,6 +209,7 @@ pub fn sites(tier: Tier) -> Vec<Site> {
             }));
     }
     sites.push(mso_name_text_site("C01"));
+    sites.push(container_ops_site("C01"));
     sites
 }
 
@@ -266,6 +267,93 @@ pub fn mso_name_text_site(prop: &'static str) -> Site {
                 }
             });
 
+}
+
+/// The three packet values that are built through mutators (IS_IPB, IS_MAL, the allowed-cars set of IS_PLC):
+/// every sequence of up to 5 operations over {insert a, insert b, insert c, remove a, remove b, clear}
+/// against a plain set; after each sequence the packet encodes to the frame of that set and decodes back to it.
+/// (Shared by C01 and C02.)
+pub fn container_ops_site(prop: &'static str) -> Site {
+    const OPS: u64 = 6;
+    let mut n = 0u64;
+    for l in 0..=5u32 { n += OPS.pow(l); }
+    Site::new("container-operations", n * 3 * 2,
+        "IS_IPB / IS_MAL / IS_PLC cars x every sequence of <= 5 operations over {insert a, insert b, insert c, remove a, remove b, clear} x mode: the frame and the decoded packet are those of the resulting set",
+        move |i, acc| {
+            use insim::insim::{Ipb, Mal, Plc};
+            use insim::core::vehicle::Vehicle;
+            acc.eval();
+            let compressed = i % 2 == 0;
+            let which = (i / 2) % 3;
+            let mut j = i / 6;
+            let mut len = 0u32;
+            while j >= OPS.pow(len) { j -= OPS.pow(len); len += 1; }
+            let ops: Vec<u64> = (0..len).map(|_| { let o = j % OPS; j /= OPS; o }).collect();
+            let codec = Codec::new(mode_of(compressed));
+            let pname = ["IPB", "MAL", "PLC"][which as usize];
+            let replay = json!({"site": "container-operations", "index": i, "packet": pname, "operations": ops});
+            let mut model: Vec<u64> = vec![]; // insertion-ordered set of element ids 0..3
+            let apply_model = |model: &mut Vec<u64>, o: u64| match o {
+                0..=2 => if !model.contains(&o) { model.push(o) },
+                3 | 4 => model.retain(|x| *x != o - 3),
+                _ => model.clear(),
+            };
+            let label = format!("{} after {:?}", ["IPB", "MAL", "PLC"][which as usize], ops);
+            let (frame, elems_on_wire): (Result<Vec<u8>, String>, Vec<Vec<u8>>) = match which {
+                0 => {
+                    let ips = [std::net::Ipv4Addr::new(10, 0, 0, 1), std::net::Ipv4Addr::new(192, 168, 7, 9), std::net::Ipv4Addr::new(1, 2, 3, 4)];
+                    let mut p = Ipb::default();
+                    for o in &ops { match o { 0..=2 => { let _ = p.insert(ips[*o as usize]); }, 3 | 4 => { let _ = p.remove(&ips[(*o - 3) as usize]); }, _ => p.clear() }; apply_model(&mut model, *o); }
+                    if p.len() != model.len() { acc.violate(i, format!("{prop}|IPB|container-length"), format!("{label}: len() = {}, the set has {}", p.len(), model.len()), replay); return; }
+                    (crate::report::guard(|| codec.encode(&Packet::Ipb(p))).map_err(|e| e).and_then(|r| r.map(|b| b.to_vec()).map_err(|e| e.to_string())), vec![])
+                },
+                1 => {
+                    let ids = [0x0012_3456u32, 0x00ab_cdef, 0x0100_0001];
+                    let mut p = Mal::default();
+                    for o in &ops { match o { 0..=2 => { let _ = p.insert(Vehicle::Mod(ids[*o as usize])); }, 3 | 4 => { let _ = p.remove(&Vehicle::Mod(ids[(*o - 3) as usize])); }, _ => p.clear() }; apply_model(&mut model, *o); }
+                    if p.len() != model.len() { acc.violate(i, format!("{prop}|MAL|container-length"), format!("{label}: len() = {}, the set has {}", p.len(), model.len()), replay); return; }
+                    let want: Vec<Vec<u8>> = model.iter().map(|m| ids[*m as usize].to_le_bytes().to_vec()).collect();
+                    (crate::report::guard(|| codec.encode(&Packet::Mal(p))).and_then(|r| r.map(|b| b.to_vec()).map_err(|e| e.to_string())), want)
+                },
+                _ => {
+                    let cars = [Vehicle::Xfg, Vehicle::Xrt, Vehicle::Fbm];
+                    let mut p = Plc::default();
+                    for o in &ops { match o { 0..=2 => { let _ = p.cars.insert(cars[*o as usize].clone()); }, 3 | 4 => { let _ = p.cars.remove(&cars[(*o - 3) as usize]); }, _ => p.cars.clear() }; apply_model(&mut model, *o); }
+                    if p.cars.len() != model.len() { acc.violate(i, format!("{prop}|PLC|container-length"), format!("{label}: len() = {}, the set has {}", p.cars.len(), model.len()), replay); return; }
+                    (crate::report::guard(|| codec.encode(&Packet::Plc(p))).and_then(|r| r.map(|b| b.to_vec()).map_err(|e| e.to_string())), vec![])
+                },
+            };
+            let frame = match frame {
+                Ok(f) => f,
+                Err(e) => { acc.violate(i, format!("{prop}|{}|container-encode-failed", ["IPB", "MAL", "PLC"][which as usize]), format!("{label}: {e}"), replay); return; },
+            };
+            // the frame: IPB / MAL = 8-byte header with the count at offset 3, then 4 bytes per element in insertion order; PLC = 12 bytes, car bits at 8..12
+            let ok_frame = match which {
+                0 => frame.len() == 8 + 4 * model.len() && frame[3] as usize == model.len(),
+                1 => frame.len() == 8 + 4 * model.len() && frame[3] as usize == model.len() && frame[8..].chunks(4).zip(&elems_on_wire).all(|(a, b)| a == &b[..]),
+                _ => {
+                    // XF GTI = bit 0, XR GT TURBO = bit 3, FORMULA BMW = bit 17 ... taken from a set built by inserts only
+                    let mut fresh = insim::insim::Plc::default();
+                    let cars = [Vehicle::Xfg, Vehicle::Xrt, Vehicle::Fbm];
+                    for m in &model { let _ = fresh.cars.insert(cars[*m as usize].clone()); }
+                    let want = codec.encode(&Packet::Plc(fresh)).map(|b| b.to_vec()).unwrap_or_default();
+                    frame == want
+                },
+            };
+            if !ok_frame {
+                acc.violate(i, format!("{prop}|{}|container-frame", ["IPB", "MAL", "PLC"][which as usize]), format!("{label}: frame {} does not carry exactly the {} element(s) of the set", crate::report::hex(&frame), model.len()), replay);
+                return;
+            }
+            let mut b = BytesMut::from(&frame[..]);
+            match crate::report::guard(|| codec.decode(&mut b)) {
+                Ok(Ok(Some(q))) => {
+                    let n_back = match &q { Packet::Ipb(x) => x.len(), Packet::Mal(x) => x.len(), Packet::Plc(x) => x.cars.len(), _ => usize::MAX };
+                    if n_back == model.len() { acc.class("container-operations"); acc.nontrivial(); }
+                    else { acc.violate(i, format!("{prop}|{}|container-decodes-differently", ["IPB", "MAL", "PLC"][which as usize]), format!("{label}: decodes to {n_back} element(s)"), replay); }
+                },
+                other => acc.violate(i, format!("{prop}|{}|container-frame-does-not-decode", ["IPB", "MAL", "PLC"][which as usize]), format!("{label}: frame {}: {}", crate::report::hex(&frame), format!("{other:?}").chars().take(100).collect::<String>()), replay),
+            }
+        })
 }
 
 pub fn run(tier: Tier, replay: Option<String>) -> i32 {
